@@ -312,6 +312,7 @@ def _gen_individual(rng, subj, routes, info, has_dose, has_evid, has_mdv, has_ad
     n = rng.randint(18, 30) if long else rng.choice([1, 2, 3, 3, 4, 4, 5, 6, 7, 8])
     t = rng.choice([0.0, 0.0, 0.0, 0.5, 1.0, 10.0])
     out = []
+    earlier_dose_times = []
     last_admid = routes[0][1]
     kinds_w = [("obs", 50)]
     if has_dose:
@@ -347,9 +348,17 @@ def _gen_individual(rng, subj, routes, info, has_dose, has_evid, has_mdv, has_ad
             else:
                 dt = rng.choice(TIME_STEPS)
             if kind in ("reset", "rdose") and rng.random() < 0.7:
-                t = rng.choice([0.0, 0.0, 0.5, t, t + 1.0])  # the clock may restart at a reset
+                t_new = rng.choice([0.0, 0.0, 0.5, t, t + 1.0])  # the clock may restart at a reset
+                if t_new < t:
+                    # dose times of the occasions before the restart: a later record may fall on exactly such a time
+                    earlier_dose_times = sorted({q["t"] for q in out if q["kind"] in ("dose", "rdose")})
+                t = t_new
             else:
-                t = t + dt
+                later = [x for x in earlier_dose_times if x > t]
+                if later and kind in ("obs", "mobs") and rng.random() < 0.4:
+                    t = rng.choice(later)  # same clock reading as a dose of an earlier occasion (no tie: another occasion)
+                else:
+                    t = t + dt
         r = {"id": subj, "t": t, "kind": kind, "amt": 0.0, "rate": 0.0, "addl": 0.0, "ii": 0.0, "ss": 0.0,
              "cmt": 0.0, "admid": float(last_admid), "dv": 0.0}
         if kind in ("dose", "rdose"):
